@@ -10,7 +10,7 @@ for p in props:
     r = subprocess.run([f"{V}/run.sh", p, "thorough"], capture_output=True, text=True)
     ev = json.load(open(f"{V}/evidence/{p}.json"))
     for sv in (ev["coverage"].get("self_validation") or []):
-        rows.append((sv["seed"], p, sv.get("status"), sv.get("fired"), " ".join(sv.get("rules", []))))
+        rows.append((sv["seed"], p, sv.get("status"), sv.get("fired"), " ".join(sv.get("rules") or [])))
     print(p, "exit", r.returncode, "%.0fs" % (time.time() - t0), flush=True)
 rows.sort()
 with open(f"{V}/seeded/RESULTS.md", "w") as f:
